@@ -1,0 +1,31 @@
+// Verification contracts (comment-only, compiled only with the "verif" build tag; read by /verif/govc).
+
+//go:build verif
+// +build verif
+
+package staking
+
+// Property C14, clause 2: hand-written DecodeRLP methods copy every decoded field.
+
+//@ func (*SlashData).DecodeRLP props C14
+//@ panics none
+//@ requires l != nil && s != nil
+//@ modifies all, c14Consumed, c14K, c14Sz, c14P
+//@ assert before return#1: [Type] l.Type == msg.Type
+//@ assert before return#1: [MainAddress] l.MainAddress == msg.MainAddress
+//@ assert before return#1: [Total] l.Total == msg.PenaltyAmount
+//@ assert before return#1: [Records] l.Records == msg.Records
+//@ assert before return#1: [Evidence] l.Evidence == box(msg.Evidence)
+
+// EvidenceDoubleSign (deprecated type, still decodable): scalar fields copied; the Signs list is folded into a map keyed by
+// BytesToHash(item.Hash) — duplicates and over-long hashes collapse, and EncodeRLP ranges over that map in Go's random order:
+// see /verif/proposed_fixes/C14/evidence_doublesign_order.* and /verif/findings_proposed/C14.json.
+// common.BytesToHash copies (right-aligned) bytes into a fresh Hash value: no effect on modelled state.
+//@ effectfree github.com/youchainhq/go-youchain/common.BytesToHash
+
+//@ func (*EvidenceDoubleSign).DecodeRLP props C14
+//@ requires e != nil && c != nil
+//@ modifies all, c14Consumed, c14K, c14Sz, c14P
+//@ assert before return#1: [Round] e.Round == data.Round
+//@ assert before return#1: [RoundIndex] e.RoundIndex == data.RoundIndex
+//@ assert before return#1: [Signs-fresh] e.Signs != nil
